@@ -18,7 +18,7 @@ def gen_vectors(scratch, module, cfg, tag):
     return vecs, r
 
 
-def report(pid, tier, seed, verdict, vecs_n, gen, extra_cov, assumptions, t0, trace, kind):
+def report(pid, tier, seed, verdict, vecs_n, gen, extra_cov, assumptions, t0, trace, kind, level="model_checking"):
     kf = vlib.load_known_findings()
     reported, known = [], {}
     for b in verdict["bad"]:
@@ -61,7 +61,7 @@ def report(pid, tier, seed, verdict, vecs_n, gen, extra_cov, assumptions, t0, tr
            "states": max(gen.get("distinct") or 1, 1), "transitions": max(verdict["n"], 1), "traces_validated_against_impl": verdict["n"],
            "clause_hits": verdict["cnt"], "known_findings_matched": known, "exhaustive": extra_cov.pop("exhaustive", False)}
     cov.update(extra_cov)
-    vlib.write_evidence(pid, tier, seed, "model_checking", cov, assumptions, time.time() - t0, len(reported))
+    vlib.write_evidence(pid, tier, seed, level, cov, assumptions, time.time() - t0, len(reported))
     print("%s %s: vectors=%d clause-hits=%s" % (pid, tier, verdict["n"], verdict["cnt"]))
     return rc
 
